@@ -465,7 +465,7 @@ theorem applyHeader_kind (dn : Bool) (st : HState) (key value : Bytes) (hne : ke
           | some v => { err := false, head := { hd with cl := v, clBytes := value } }
         else st
       | .conn =>
-        if value = strClose then { st with head := { hd with connClose := true } }
+        if ciEq value strClose then { st with head := { hd with connClose := true } }
         else { st with head := { hd with connClose := false, h := hd.h ++ [(key, value)] } }
       | .server => { st with head := { hd with server := value } }
       | .setcookie => { st with head := { hd with cookies := hd.cookies ++ [value] } }
@@ -756,7 +756,9 @@ theorem a_conn (dn : Bool) (st : Nat) (sv ct ce : Bytes) (cl : Int) (clb : Bytes
   | false => rfl
   | true =>
     simp only [if_true, applyAll_one]
-    rw [applyHeader_kind dn _ strConnection _ (by decide), kind_conn]; rfl
+    rw [applyHeader_kind dn _ strConnection _ (by decide), kind_conn]
+    have hcc : ciEq strClose strClose = true := by decide +kernel
+    simp only [hcc, if_true]; rfl
 
 theorem a_cookies (dn : Bool) (st : Nat) (sv ct ce : Bytes) (cl : Int) (clb : Bytes) (cc : Bool) (h : List (Bytes × Bytes)) (cs : List Bytes) :
     applyAll dn (mk st sv ct ce cl clb cc h []) (cs.map (fun c => (strSetCookie, c))) = mk st sv ct ce cl clb cc h cs := by
